@@ -186,6 +186,53 @@ def extra_obligations(mods, tier, seed):
                     "where": f"statement kind '{name}' is translated or rejected with an error (observed: {verdict})",
                     "time": round(time.time() - t1, 3), "replay": {"script": src, "observed": verdict, "output_tail": cpp[-300:]},
                     "replay_confirmed": not ok})
+    # (2b) every statement-form device method / Core helper of the host API, at every nesting the dispatcher distinguishes: the call
+    #      line is translated (the firmware text changes when the line is removed) or rejected - it never vanishes
+    import inspect
+    import contracts.c08 as c8
+    t1 = time.time()
+    vanished, n_calls = [], 0
+    for cls, meth, sig, kind in c8.host_callables():
+        if kind not in ("stmt", "corestmt"):
+            continue
+        skip = c8.HOST_ONLY_PARAMS.get((cls, meth), set())
+        params = [p for p in sig.parameters.values() if p.name not in skip]
+        names = [p.name for p in params]
+        args = []
+        for p in params:
+            if p.default is not inspect._empty:
+                continue
+            lit = c8.LITERAL_PROBES.get((cls, meth, p.name), (None,))[0]
+            if lit is None:
+                v = c8.HOST_VALUES.get(p.name, 2 + names.index(p.name))
+                lit = repr(v) if isinstance(v, (str, list)) else str(v)
+                if cls == "Core" and p.name == "mode":
+                    lit = "OUTPUT"
+            args.append(lit if p.kind == p.POSITIONAL_ONLY else f"{p.name}={lit}")
+        call = (f"dev.{meth}(" if cls != "Core" else f"{meth}(") + ", ".join(args) + ")"
+        decl = "" if cls == "Core" else c8.DEVICES[cls] + "\n"
+        for place, tmpl in (("top-level", "{call}\n"), ("main-loop", "while True:\n    {call}\n    sleep(5)\n"),
+                            ("branch", "c = 1\nif c > 0:\n    {call}\n"), ("function", "def act():\n    {call}\nact()\n"),
+                            ("for-body", "for i in range(2):\n    {call}\n")):
+            with_call = c8.PRELUDE + decl + tmpl.format(call=call)
+            without = c8.PRELUDE + decl + tmpl.format(call="pass")
+            n_calls += 1
+            try:
+                a = repr(P.parse(with_call))
+            except (ValueError, SyntaxError):
+                continue               # rejected with an error
+            except Exception as ex:
+                vanished.append({"call": call, "place": place, "problem": f"{type(ex).__name__}: {ex}"})
+                continue
+            try:
+                b = repr(P.parse(without))
+            except Exception:
+                b = None
+            if a == b:
+                vanished.append({"call": call, "place": place, "problem": "the IR is the same with and without the line"})
+    out.append({"name": "C07/no-silent-drop/every-device-method-at-every-nesting", "status": "discharged" if not vanished else "sat", "backend": "enum",
+                "where": f"{n_calls} (statement-form device method or Core helper, nesting) pairs: the call line contributes an IR node (the IR changes when it is removed), or the call is rejected",
+                "time": round(time.time() - t1, 3), "replay": {"vanished": vanished[:6], "count": len(vanished)}, "replay_confirmed": bool(vanished)})
     # (3) bounded: _strip_inline_comment against Python's tokenizer
     t2 = time.time()
     alphabet = ["a", "'", '"', "\\", "#", " "]
